@@ -97,11 +97,11 @@ def decode_entry(e):
     return ('?', repr(e)[:40])
 
 
-def show_entries(entries):
+def show_entries(entries, off=0):
     out = []
     for d in entries:
         if d[0] == 'r':
-            out.append(f'r{d[1]}@{id_token(d[2])}')
+            out.append(f'r{d[1] - off}@{id_token(d[2])}')
         elif d[0] == 'E':
             out.append(f'E@{id_token(d[1])}')
         else:
@@ -122,11 +122,9 @@ def normalise_model(tok):
 
 
 # ------------------------------------------------------------------ implementation side
-def run_impl_batch(jr, case):
-    """returns dict(raised=entries|None, items_ok, calls=[entries|None..], lens=[..], exc)"""
-    proto = getattr(jr, PROTO_CLASS[case['proto']])
-    conn = jr.JSONRPCConnection(proto)
-    conn.max_response_size = case['max']
+def recv_batch(jr, conn, case):
+    """receive the batch on `conn`; returns (rec, deliver) where deliver(m) hands member m's
+    result to its `send_result` (False: stop)"""
     raw = json.dumps(case['members']).encode()
     rec = {'raised': None, 'calls': [], 'lens': [], 'exc': None, 'items': None, 'rawlens': []}
     try:
@@ -134,10 +132,10 @@ def run_impl_batch(jr, case):
     except jr.ProtocolError as e:
         msg = e.error_message
         rec['raised'] = [decode_entry(x) for x in json.loads(msg)] if msg else 'no-message'
-        return rec
+        return rec, None
     except Exception as e:   # noqa
         rec['exc'] = type(e).__name__
-        return rec
+        return rec, None
     # lengths are measured with the protocol in force (AutoDetect: what the harness detects)
     inforce = getattr(jr, PROTO_CLASS[case.get('inforce', case['proto'])])
     rec['items'] = ['r' if isinstance(it, jr.Request) else 'n' if isinstance(it, jr.Notification)
@@ -145,30 +143,78 @@ def run_impl_batch(jr, case):
     kinds = [classify_member(case.get('inforce', case['proto']), p) for p in case['members']]
     valid = [i for i, k in enumerate(kinds) if k[0] != 'invalid']
     by_member = dict(zip(valid, items))
-    for m in case['order']:
+    off = case.get('moff', 0)
+
+    def deliver(m):
         it = by_member.get(m)
-        result, _tok = result_for(jr, m, m in case.get('errs', ()))
+        result, _tok = result_for(jr, m + off, m in case.get('errs', ()))
         if m in case.get('unenc', ()):
             # a first attempt with a result that cannot be encoded: must raise ProtocolError,
             # emit nothing and leave the batch as it was (C03's repair of F9 relies on it)
             try:
                 leaked = it.send_result({1, 2})
                 rec['exc'] = 'UnencodableAccepted' if leaked is None else 'UnencodableEmitted'
-                break
+                return False
             except jr.ProtocolError:
                 pass
             except Exception as e:   # noqa
                 rec['exc'] = type(e).__name__
-                break
+                return False
         try:
             rec['lens'].append(len(inforce.response_message(result, kinds[m][1])))
             out = it.send_result(result)
         except Exception as e:   # noqa
             rec['exc'] = type(e).__name__
-            break
+            return False
         rec['calls'].append(None if out is None else [decode_entry(x) for x in json.loads(out)])
         rec['rawlens'].append(None if out is None else len(out))
+        return True
+    return rec, deliver
+
+
+def run_impl_batch(jr, case):
+    """returns dict(raised=entries|None, items_ok, calls=[entries|None..], lens=[..], exc)"""
+    proto = getattr(jr, PROTO_CLASS[case['proto']])
+    conn = jr.JSONRPCConnection(proto)
+    conn.max_response_size = case['max']
+    rec, deliver = recv_batch(jr, conn, case)
+    if deliver:
+        for m in case['order']:
+            if not deliver(m):
+                break
     return rec
+
+
+def run_impl_multi(jr, case):
+    """several batches in flight on ONE connection: all are received first, then their members
+    deliver in the interleaving `case['interleave']` (which batch delivers its next member);
+    returns one record per batch"""
+    proto = getattr(jr, PROTO_CLASS[case['proto']])
+    conn = jr.JSONRPCConnection(proto)
+    conn.max_response_size = case['max']
+    subs = sub_cases(case)
+    got = [recv_batch(jr, conn, sc) for sc in subs]
+    nxt = [0] * len(subs)
+    dead = set()
+    for b in case['interleave']:
+        rec, deliver = got[b]
+        if deliver is None or b in dead or nxt[b] >= len(subs[b]['order']):
+            continue
+        if not deliver(subs[b]['order'][nxt[b]]):
+            dead.add(b)
+        nxt[b] += 1
+    return [g[0] for g in got]
+
+
+def sub_cases(case):
+    """the batches of a multi case as ordinary cases; member numbers (result tokens) continue
+    across the batches so that an entry that strays into the wrong batch is recognised"""
+    out, off = [], 0
+    for sub in case['multi']:
+        out.append(dict(sub, proto=case['proto'], max=case['max'], moff=off,
+                        inforce=case.get('inforce', case['proto'])))
+        off += len(sub['members'])
+    return out
 
 
 def run_impl_single(jr, case):
@@ -232,6 +278,7 @@ def batch_oracle(case, rec):
     invalid = [i for i, k in enumerate(kinds) if k[0] == 'invalid']
     notifs = [i for i, k in enumerate(kinds) if k[0] == 'notif']
     busy = set(case.get('busy', ()))
+    off = case.get('moff', 0)
     if rec['exc']:
         return 'c02:unexpected-exception:' + rec['exc'], 'escaped receive_message / send_result'
     if 'sent' in rec:
@@ -268,7 +315,7 @@ def batch_oracle(case, rec):
     lens = dict(zip(case['order'], rec['lens']))
     for m in case['order']:
         rid = kinds[m][1]
-        hit = [e for e in pool if e[0] == 'r' and e[1] == m]
+        hit = [e for e in pool if e[0] == 'r' and e[1] == m + off]
         if hit:
             e = hit[0]
             if not same_json(e[2], rid):
@@ -388,11 +435,12 @@ def impl_text(case, rec):
         if rep is None:
             return 'none'
         return f'r@{id_token(rep[2])}' if rep[0] == 'r' else f'E@{id_token(rep[1])}' if rep[0] == 'E' else '?'
+    off = case.get('moff', 0)
     if rec['raised'] is not None:
-        return 'E' + show_entries(rec['raised']) if rec['raised'] != 'no-message' else 'E?'
+        return 'E' + show_entries(rec['raised'], off) if rec['raised'] != 'no-message' else 'E?'
     if not rec['calls']:
         return '.'
-    return ' '.join('-' if c is None else show_entries(c) for c in rec['calls'])
+    return ' '.join('-' if c is None else show_entries(c, off) for c in rec['calls'])
 
 
 def is_deep(ctx):
@@ -425,7 +473,7 @@ def _init(repo, facts=None):
 
 
 def _prepare(case):
-    if case['proto'] == 'auto' and 'inforce' not in case:
+    if case['proto'] == 'auto' and 'inforce' not in case and 'multi' not in case:
         case['inforce'] = py_detect(case['members'] if 'members' in case else case['single'])
     return case
 
@@ -435,6 +483,11 @@ def _run_batch(cases):
         out = []
         for c in cases:
             _prepare(c)
+            if 'multi' in c:
+                recs = run_impl_multi(_jr, c)
+                out.append([(impl_text(sc, r), batch_oracle(sc, r), model_line(sc, r))
+                            for sc, r in zip(sub_cases(c), recs)])
+                continue
             if 'single' in c:
                 rec = run_impl_single(_jr, c)
                 verdict = single_oracle(c, rec)
@@ -463,17 +516,31 @@ def evaluate(ctx, cases, res, scope):
     if not cases:
         return
     outs = run_impl(ctx, cases)
-    idx = [i for i, o in enumerate(outs) if o[2] is not None]
-    model = ctx.model([outs[i][2] for i in idx])
+    # one (case, sub-index, got, verdict, line) per judged batch / single
+    flat = []
+    for c, o in zip(cases, outs):
+        if isinstance(o, list):
+            flat += [(c, k, *t) for k, t in enumerate(o)]
+        else:
+            flat.append((c, None, *o))
+    idx = [i for i, f in enumerate(flat) if f[4] is not None]
+    model = ctx.model([flat[i][4] for i in idx])
     mod = dict(zip(idx, model)) if model is not None else {}
-    for i, (c, (got, verdict, line)) in enumerate(zip(cases, outs)):
+    for i, (c, sub, got, verdict, line) in enumerate(flat):
         if verdict is not None:
-            res.violation(verdict[0], c, verdict[1], impl=got, model_line=line)
+            key = verdict[0] if sub is None or verdict[0].startswith('c02:notif-invalid') \
+                else verdict[0] + '@two-batches'
+            why = verdict[1] if sub is None else f'batch {sub} of the connection: {verdict[1]}'
+            res.violation(key, c, why, impl=got, model_line=line)
         if i in mod:
             want = ' '.join(normalise_model(t) for t in mod[i].split(' '))
             if want != got:
                 res.disagreement(c, got, want, model_line=line)
-        if 'members' in c:
+        if sub is not None:
+            res.count('batches_in_flight_together')
+            if sub == 0:
+                res.nontrivial('multi|' + '|'.join(f[4] for f in flat[i:i + len(c['multi'])]))
+        elif 'members' in c:
             res.count('batch_cases')
             res.count('batch_members_total', len(c['members']))
             res.count('cases_with_limit', c['max'] > 0)
@@ -483,7 +550,8 @@ def evaluate(ctx, cases, res, scope):
                 res.nontrivial(line + '|' + c['proto'])
         else:
             res.count('single_cases')
-        res.count('cases_' + c['proto'])
+        if sub in (None, 0):
+            res.count('cases_' + c['proto'])
     res['evaluations'] += len(cases)
     res['scopes'][scope] = res['scopes'].get(scope, 0) + len(cases)
 
@@ -565,6 +633,66 @@ def exhaustive_cases(jr, maxlen, protos, rich, thin=1):
                                'errs': errs}
 
 
+def unenc_cases(jr, maxlen):
+    """every small composition x completion order, with each request member in turn making a
+    first attempt with a result that cannot be encoded (the batch must be left as it was)"""
+    for c in exhaustive_cases(jr, maxlen, ('v2',), False):
+        if c['max'] != 0 and len(c['order']) > 2:
+            continue
+        for u in c['order']:
+            yield dict(c, unenc=[u])
+
+
+def multi_cases(jr, rng, n_random):
+    """two request batches in flight on one connection (the closure state of the one must not
+    leak into the other): every pair of compositions up to 2 members from {request id 7, request
+    id "a", notification, invalid} x every interleaving of their deliveries, x a limit; plus
+    seeded random pairs of larger batches"""
+    def mk(style, kind, m):
+        p = {'method': 'm', 'params': [m]}
+        if style == 'v2':
+            p['jsonrpc'] = '2.0'
+        if kind == 'r7':
+            p['id'] = 7
+        elif kind == 'ra':
+            p['id'] = 'a'
+        elif kind == 'x':
+            p = dict(p, id=3, method=1)
+        return p
+    kinds = ('r7', 'ra', 'n', 'x')
+    comps = [c for n in (1, 2) for c in itertools.product(kinds, repeat=n)]
+    for proto in ('v2', 'loose'):
+        style = proto
+        for a in comps:
+            for b in comps:
+                subs = []
+                for comp in (a, b):
+                    members = [mk(style, k, m) for m, k in enumerate(comp)]
+                    reqs = [m for m, k in enumerate(comp) if k[0] == 'r']
+                    subs.append({'members': members, 'order': reqs, 'errs': []})
+                na, nb = len(subs[0]['order']), len(subs[1]['order'])
+                if na + nb == 0:
+                    inter = [()]
+                else:
+                    inter = sorted(set(itertools.permutations([0] * na + [1] * nb)))
+                for il in inter:
+                    for rev in ((False, False), (True, False)) if na > 1 else ((False, False),):
+                        ss = [dict(s, order=list(reversed(s['order'])) if r else s['order'])
+                              for s, r in zip(subs, rev)]
+                        for mx in (0, 50):
+                            yield {'proto': proto, 'max': mx, 'multi': ss, 'interleave': list(il)}
+    for _ in range(n_random):
+        a, b = random_case(rng, jr), random_case(rng, jr)
+        proto = rng.choice(['v2', 'loose'])
+        if a['proto'] == 'auto' or b['proto'] == 'auto' or a['proto'] != b['proto']:
+            continue
+        subs = [{k: c[k] for k in ('members', 'order', 'errs', 'unenc')} for c in (a, b)]
+        il = [0] * len(a['order']) + [1] * len(b['order'])
+        rng.shuffle(il)
+        yield {'proto': a['proto'], 'max': rng.choice([0, a['max'], b['max']]), 'multi': subs,
+               'interleave': il}
+
+
 def single_cases(jr):
     out = []
     for proto in ('v1', 'v2', 'loose', 'auto'):
@@ -644,8 +772,11 @@ RULE = ('case = (protocol, max_response_size, batch composition, completion orde
         'with / without recoverable id} x every completion order of the request members x limits at '
         'the decision points (0, first entry fits exactly / by one byte not, whole batch fits exactly / '
         'not), for v2, Loose and AutoDetect; single requests/notifications on all four protocols with '
-        'every id type x limits at the boundary; seeded random batches up to 8 members; a serving '
-        'RPCSession on a fake transport for what is written; non-trivial = at least two request '
+        'every id type x limits at the boundary; a first attempt with an unencodable result by each request member; two '
+        'batches in flight on one connection x every interleaving of their deliveries; seeded random batches up to 8 '
+        'members; a serving '
+        'RPCSession on a fake transport for what is written (gated handlers; and on the virtual clock: handler '
+        'durations x processing timeout x send-buffer pause/resume instants); non-trivial = at least two request '
         'members; distinct = distinct (model line, protocol)')
 
 
@@ -663,6 +794,8 @@ def run(ctx):
         elif c.get('layer') == 'session':
             c02_session.replay(ctx, c, res)
     evaluate(ctx, single_cases(jr), res, 'singles')
+    evaluate(ctx, list(unenc_cases(jr, 2 if not is_deep(ctx) else 3)), res, 'exhaustive_unencodable_attempt')
+    evaluate(ctx, list(multi_cases(jr, rng, 300 if not is_deep(ctx) else 3000)), res, 'two_batches_in_flight')
     done = 0
     for n, protos, rich in ((3, ('v2', 'loose', 'auto'), True), (4, ('v2', 'loose'), False)):
         if unlisted_failure(ctx, res) and n > 3:
